@@ -77,6 +77,9 @@ func runC02(w *W) {
 		NoBinary: !t.Chance(1, 5, "sch.binary")}
 	so.SplitFiles = t.Chance(1, 4, "sch.split")
 	so.Typedefs, so.ZeroID = t.Chance(1, 3, "sch.typedefs"), t.Chance(1, 4, "sch.zeroid")
+	// api.js_conv fields: under EnableValueMapping the native parser hands the member's text back to Go in the
+	// middle of the document and is re-entered afterwards
+	so.JSConv, so.JSConvScalars = t.Chance(1, 4, "sch.jsconv"), true
 	w.World.GuardGrowth = !so.NoBinary
 	// deep worlds: long chains of nested structs with wide requires-bitmaps over a small bitmap arena, so
 	// that one conversion outgrows the arena several times while outer levels are still open
@@ -141,6 +144,11 @@ func runC02(w *W) {
 	opts.String2Int64 = t.Chance(1, 5, "opt.string2int")
 	opts.NoBase64Binary = t.Chance(1, 6, "opt.nobase64")
 	opts.EnableThriftBase = reqBase != nil
+	opts.EnableValueMapping = so.JSConv && t.Chance(2, 3, "opt.valuemapping")
+	if opts.EnableValueMapping {
+		w.Count("worlds_with_value_mapping")
+		w.Sig("vm")
+	}
 	cv := j2t.NewBinaryConv(opts)
 	w.Logf("conv.Options: %+v  flavour=%s", opts, flavour)
 	ctx := context.Background()
@@ -164,11 +172,12 @@ func runC02(w *W) {
 		if opts.NoBase64Binary {
 			textifyBinaries(vg, val)
 		}
-		style := &jsonStyle{t: t, WS: t.Intn(3, "js.ws"), Esc: t.Intn(3, "js.esc"), Num: t.Intn(2, "js.num"), QuoteNums: opts.String2Int64, NoBase64: opts.NoBase64Binary, NegZeroInt: t.Chance(1, 40, "js.negzeroint")}
+		style := &jsonStyle{t: t, WS: t.Intn(3, "js.ws"), Esc: t.Intn(3, "js.esc"), Num: t.Intn(2, "js.num"), QuoteNums: opts.String2Int64, NoBase64: opts.NoBase64Binary, NegZeroInt: t.Chance(1, 40, "js.negzeroint") && !opts.EnableValueMapping, ValueMapping: opts.EnableValueMapping}
 		if t.Chance(1, 3, "js.trailing") {
 			style.TrailingWS = t.Intn(40, "js.trailing.n")
 		}
 		js := style.render(val)
+		w.CountN("value_mapped_members", uint64(style.UsedJSConv))
 		stopMarks = stopMarks[:0]
 		exp, experr := expectJ2T(append([]byte{}, baseBytes...), val, wo)
 		stops := append([]int{}, stopMarks...)
@@ -205,6 +214,7 @@ func runC02(w *W) {
 			facts["has_binary"] = fmt.Sprint(hasBinary(val) && !opts.NoBase64Binary)
 			facts["negzero_int_spelling"] = fmt.Sprint(style.UsedNegZero)
 			facts["write_flags"] = fmt.Sprint(opts.WriteDefaultField || opts.WriteRequireField || opts.WriteOptionalField)
+			facts["jsconv_null_member"] = fmt.Sprint(style.UsedJSConvNull > 0)
 			if env.DoInto {
 				w.Sig(fmt.Sprintf("cap:%s", capSig(env, len(exp), len(js))))
 			}
@@ -233,6 +243,12 @@ func runC02(w *W) {
 				}
 				if !bytes.Equal(r.Out, exp) {
 					facts["diff"] = diffShape(r.Out, exp)
+					if style.UsedJSConvI16 > 0 {
+						wo43 := wo
+						wo43.F43JSConvI16 = true
+						exp43, _ := expectJ2T(append([]byte{}, baseBytes...), val, wo43)
+						facts["equals_f43_model"] = fmt.Sprint(bytes.Equal(r.Out, exp43))
+					}
 					if len(baseBytes) == 0 {
 						facts["null_header_residue"] = fmt.Sprint(nullHeaderResidue(r.Out, exp, val, wo))
 					} else if bytes.HasPrefix(r.Out, baseBytes) {
